@@ -26,10 +26,13 @@ func (p Persist) Load(ctx context.Context, name string) ([]byte, error) {
 func (p Persist) Store(ctx context.Context, name string, bytes []byte) error {
 	path := filepath.Join(p.basepath, name)
 	_, err := os.Stat(path)
-	if os.IsNotExist(err) {
-		return os.WriteFile(filepath.Join(p.basepath, name), bytes, 0644)
+	if err == nil {
+		return nil
 	}
-	return nil
+	if !os.IsNotExist(err) {
+		return err
+	}
+	return os.WriteFile(filepath.Join(p.basepath, name), bytes, 0644)
 }
 
 // NewPersistForPath returns a Persist that loads and stores nodes as
